@@ -1,6 +1,429 @@
+import Proofs.C20.Nonce
+import Proofs.C20.Machines
+import Proofs.C20.Wallet
 /-!
-# C20 — property theorems only (see DESIGN.md §3 C20).
+# C20 — nonces sign once, wiped signers stay dead, answers do not depend on history
+
+Property theorems only (DESIGN §3 C20, T1–T5).  Every theorem is about *every finite history*
+(`List` of operations, by induction) of the transition systems of `Model/C20/Lifecycle.lean`,
+whose step functions interpret the statement lists `Gen.Lifecycle.*` that the translator reads off
+/repo's source on every run: reorder `musig2.sign`, `Signer.sign_`, `Signer.wipe` or
+`RangedWallet.address` and these proofs are re-checked against the new order.
+
+Not a theorem here (runtime behaviour no model of this code exhibits): CPython thread scheduling.
+T4 covers every interleaving of *atomic* cache operations (an interleaving is one more history);
+the harness searches real threads (`harness/c20.py`, stream `threads`).
 -/
 namespace Props.C20
+open Btc Btc.C20
+
+/-! ## T1 — a MuSig2 secret nonce signs at most once -/
+
+/-- Once the session assembles, the call overwrites the first 64 bytes of the caller's bytearray
+    — whether it then returns a signature or refuses (range, key, participant): a failed first
+    attempt burns the nonce too. -/
+theorem nonce_attempt_spends (x : SignArgs) (nonce : Bytes) (h : x.ctxOk = true) :
+    (Nonce.sign x nonce).1 = zeroPrefix 64 nonce ∧ Spent (Nonce.sign x nonce).1 := by
+  rcases sign_cases x nonce with ⟨h1, _⟩ | ⟨_, h2⟩
+  · rw [h] at h1; cases h1
+  · exact ⟨h2, by rw [h2]; exact spent_zeroPrefix nonce⟩
+
+/-- The one thing the order leaves spendable (and the source says so): a session that does not
+    assemble is refused before the nonce is read, and the bytearray is untouched. -/
+theorem nonce_unassembled_session_untouched (x : SignArgs) (nonce : Bytes) (h : x.ctxOk = false) :
+    Nonce.sign x nonce = (nonce, .error x.ctxErr) := by
+  rcases sign_cases x nonce with ⟨_, h1⟩ | ⟨h2, _⟩
+  · exact h1
+  · rw [h] at h2; cases h2
+
+/-- A spent nonce never signs again, whatever calls follow, and stays spent. -/
+theorem nonce_spent_never_signs (ops : List NonceOp) (nonce : Bytes) (h : Spent nonce) :
+    (∀ o ∈ (Nonce.run ops nonce).1, o.isSig = false) ∧ Spent (Nonce.run ops nonce).2 := by
+  induction ops generalizing nonce with
+  | nil => exact ⟨by simp [Nonce.run], h⟩
+  | cons op ops ih =>
+    cases op with
+    | peek =>
+      have := ih nonce h
+      simp only [Nonce.run, Nonce.step, List.mem_cons, forall_eq_or_imp]
+      exact ⟨⟨rfl, this.1⟩, this.2⟩
+    | sign x =>
+      obtain ⟨e, he⟩ := sign_spent_errs x nonce h
+      have hs := sign_spent_stays x nonce h
+      have := ih _ hs
+      simp only [Nonce.run, Nonce.step]
+      generalize Nonce.sign x nonce = r at he hs this
+      obtain ⟨n', o⟩ := r
+      simp only at he
+      subst he
+      simp only [List.mem_cons, forall_eq_or_imp]
+      exact ⟨⟨rfl, this.1⟩, this.2⟩
+
+/-- A call that returned a signature leaves the nonce spent. -/
+theorem nonce_signature_spends (x : SignArgs) (nonce : Bytes) (s : Bytes)
+    (h : (Nonce.sign x nonce).2 = .ok s) : Spent (Nonce.sign x nonce).1 := by
+  cases hc : x.ctxOk
+  · rw [nonce_unassembled_session_untouched x nonce hc] at h; cases h
+  · exact (nonce_attempt_spends x nonce hc).2
+
+/-- **Single use.**  In any history on one bytearray, from any initial contents, at most one call
+    returns a signature. -/
+theorem nonce_single_use (ops : List NonceOp) (nonce : Bytes) :
+    ((Nonce.run ops nonce).1.filter NonceOut.isSig).length ≤ 1 := by
+  induction ops generalizing nonce with
+  | nil => simp [Nonce.run]
+  | cons op ops ih =>
+    cases op with
+    | peek =>
+      have := ih nonce
+      simpa [Nonce.run, Nonce.step, NonceOut.isSig] using this
+    | sign x =>
+      simp only [Nonce.run, Nonce.step]
+      cases hr : (Nonce.sign x nonce).2 with
+      | error e =>
+        have := ih (Nonce.sign x nonce).1
+        generalize Nonce.sign x nonce = r at hr this
+        obtain ⟨n', o⟩ := r
+        simp only at hr; subst hr
+        simpa [NonceOut.isSig] using this
+      | ok s =>
+        have hs := nonce_signature_spends x nonce s hr
+        have := (nonce_spent_never_signs ops _ hs).1
+        generalize Nonce.sign x nonce = r at hr this
+        obtain ⟨n', o⟩ := r
+        simp only at hr; subst hr
+        have hf : (Nonce.run ops n').1.filter NonceOut.isSig = [] := by
+          rw [List.filter_eq_nil_iff]
+          intro o ho; simp [this o ho]
+        simp [List.filter_cons, NonceOut.isSig, hf]
+
+/-- **After the first attempt, never again.**  Whatever happened before, once a `sign` call got
+    past the session (it returned a signature *or failed a later check*), no later call in any
+    continuation returns a signature. -/
+theorem nonce_no_signature_after_attempt (pre post : List NonceOp) (x : SignArgs) (nonce : Bytes)
+    (h : x.ctxOk = true) :
+    ∀ o ∈ (Nonce.run post (Nonce.sign x (Nonce.run pre nonce).2).1).1, o.isSig = false :=
+  (nonce_spent_never_signs post _ (nonce_attempt_spends x _ h).2).1
+
+/-! ## T2 — wiped / closed is absorbing -/
+
+/-- The facts about the source the theorem needs hold of the statement lists read off
+    `dsa.Signer` and `ssa.Signer` today (`_wiped` is tested first, `wipe` sets it, `__exit__`
+    wipes; `wipe` lets go of the key object and of the scalar). -/
+theorem signer_sources_well_formed :
+    dsaCode.WellFormed ∧ ssaCode.WellFormed ∧ dsaCode.DropsKey ∧ ssaCode.DropsKey := by
+  decide
+
+/-- **Wiped stays dead.**  For the statement order of either `Signer` class: after `wipe()` or
+    leaving a `with` block, in every continuation no call returns a signature, every `sign_` is
+    refused with the library's ValueError, and the object holds neither the key object nor the
+    scalar. -/
+theorem signer_wiped_absorbing (c : SignerCode) (wf : c.WellFormed) (pre post : List SignerOp)
+    (kill : SignerOp) (hk : kill = .wipe ∨ kill = .exit) (s0 : Signer) :
+    let dead := (Signer.step c kill (Signer.run c pre s0).2).1
+    (∀ o ∈ (Signer.run c post dead).1, o ≠ .sig) ∧
+    (∀ ok, (Signer.step c (.sign ok) (Signer.run c post dead).2).2 = .err .value) ∧
+    (c.DropsKey → dead.keyObj = false ∧ dead.scalar = false) := by
+  intro dead
+  have hw : dead.wiped = true := by
+    rcases hk with rfl | rfl
+    · exact (kill_sets_wiped wf _).1
+    · exact (kill_sets_wiped wf _).2
+  obtain ⟨h1, h2⟩ := run_of_wiped wf post dead hw
+  refine ⟨h1, ?_, ?_⟩
+  · intro ok
+    simp only [Signer.step]
+    exact sign_of_wiped wf.1 _ h2 ok
+  · intro hd
+    obtain ⟨_, _, h3⟩ := wf
+    rcases hk with rfl | rfl <;>
+      simp [dead, Signer.step, h3, runWipe_keyObj, runWipe_scalar, hd.1, hd.2]
+
+/-- the two instances, on whichever arm (delegated or Python) the signer was constructed. -/
+theorem dsa_signer_dead_after_wipe (delegated : Bool) (pre post : List SignerOp) (kill : SignerOp)
+    (hk : kill = .wipe ∨ kill = .exit) :
+    ∀ o ∈ (Signer.run dsaCode post
+        (Signer.step dsaCode kill (Signer.run dsaCode pre (Signer.init dsaCode delegated)).2).1).1,
+      o ≠ .sig :=
+  (signer_wiped_absorbing dsaCode signer_sources_well_formed.1 pre post kill hk _).1
+
+theorem ssa_signer_dead_after_wipe (delegated : Bool) (pre post : List SignerOp) (kill : SignerOp)
+    (hk : kill = .wipe ∨ kill = .exit) :
+    ∀ o ∈ (Signer.run ssaCode post
+        (Signer.step ssaCode kill (Signer.run ssaCode pre (Signer.init ssaCode delegated)).2).1).1,
+      o ≠ .sig :=
+  (signer_wiped_absorbing ssaCode signer_sources_well_formed.2.1 pre post kill hk _).1
+
+/-- every method of `SoftwareSigner` that produces a signature starts with `self._assert_open()`
+    in the current source (read off the AST each run; this was false of `sign_ecdsa`,
+    `sign_schnorr`, `sign_schnorr_script_path` until /repo 6b38e831). -/
+theorem soft_signer_signing_methods_guarded : ∀ m ∈ signingMethods, guarded m = true := by
+  decide
+
+/-- **Closed stays closed and never signs.**  After `close()`, in every continuation: the signer
+    stays closed, and every call of a signing method (`sign_psbt`, `sign_message`, and the
+    `KeyManager` surface `sign_ecdsa` / `sign_schnorr` / `sign_schnorr_script_path` that `psbt.sign`
+    drives) — wherever it occurs in the continuation, whatever its arguments — is refused with the
+    library's ValueError; so is every other guarded method (`xpub`, `display_address`). -/
+theorem soft_signer_closed_absorbing (pre post : List SoftOp) (s0 : SoftSigner) :
+    let closed := (SoftSigner.step .close (SoftSigner.run pre s0).2).1
+    (SoftSigner.run post closed).2.closed = true ∧
+    (∀ p ∈ post.zip (SoftSigner.run post closed).1, ∀ m ok, p.1 = .call m ok →
+      (m ∈ signingMethods ∨ guarded m = true) → p.2 = .err .value) := by
+  intro closed
+  have hc : Gen.Lifecycle.softwareSignerCloseSets = true := by decide
+  have ha : Gen.Lifecycle.softwareSignerAssertOpenRaises = true := by decide
+  have h0 : closed.closed = true := by simp [closed, SoftSigner.step, hc]
+  have hrun : ∀ (ops : List SoftOp) (s : SoftSigner), s.closed = true →
+      (SoftSigner.run ops s).2.closed = true ∧
+      (∀ p ∈ ops.zip (SoftSigner.run ops s).1, ∀ m ok, p.1 = .call m ok →
+        (m ∈ signingMethods ∨ guarded m = true) → p.2 = .err .value) := by
+    intro ops
+    induction ops with
+    | nil => intro s hs; exact ⟨hs, by simp [SoftSigner.run]⟩
+    | cons op ops ih =>
+      intro s hs
+      have hk := soft_step_keeps_closed hc op s hs
+      obtain ⟨i1, i2⟩ := ih _ hk
+      simp only [SoftSigner.run]
+      refine ⟨i1, ?_⟩
+      intro p hp m ok hop hm
+      simp only [List.zip_cons_cons, List.mem_cons] at hp
+      rcases hp with rfl | hp
+      · simp only at hop
+        subst hop
+        have hg : guarded m = true := by
+          rcases hm with hm | hm
+          · exact soft_signer_signing_methods_guarded m hm
+          · exact hm
+        simp [SoftSigner.step, hg, hs, ha]
+      · exact i2 p hp m ok hop hm
+  exact hrun post closed h0
+
+/-- the guard table as read off the source today. -/
+theorem soft_signer_guard_table :
+    signingMethods.map (fun m => (m, guarded m)) =
+      [("sign_psbt", true), ("sign_message", true), ("sign_ecdsa", true),
+       ("sign_schnorr", true), ("sign_schnorr_script_path", true)] := by
+  decide
+
+-- an open signer answers, a closed one refuses — the KeyManager surface included:
+example : (SoftSigner.run [.call "sign_ecdsa" true, .close, .call "sign_ecdsa" true, .call "sign_psbt" true]
+    SoftSigner.init).1 = [.answer, .none_, .err .value, .err .value] := by
+  decide
+
+/-! ## T3 — the wallet ledger is a function of what has been handed out -/
+
+section Wallet
+variable {α : Type} [DecidableEq α]
+
+/-- **Refinement.**  For every history from the empty wallet, every answer of the implementation
+    model equals the answer the specification computes from the *list of hand-outs so far* alone,
+    and the final state abstracts to that list (`Inv`: per-branch next index, ledger keys, ledger
+    records). -/
+theorem wallet_refines_handed_out (src : Source α) (ops : List (WalletOp α)) :
+    (Wallet.run src ops Wallet.empty).1 = (specRun src ops []).1 ∧
+    Inv src (Wallet.run src ops Wallet.empty).2 (specRun src ops []).2 :=
+  run_sim src ops Wallet.empty [] (inv_empty src)
+
+/-- **High-water mark.**  After any history, for every branch `b`: every index handed out on `b`
+    is below `next b`, and `next b` is `0` or one past an index that *was* handed out on `b` —
+    i.e. `next b = 1 + max {i | (b, i) handed out}`, `0` if none. -/
+theorem wallet_next_is_one_past_max (src : Source α) (ops : List (WalletOp α)) (b : Int) :
+    let w := (Wallet.run src ops Wallet.empty).2
+    let H := (specRun src ops []).2
+    (∀ h ∈ H, ∀ i, h.pos = some (b, i) → i < w.next b) ∧
+    (w.next b = 0 ∨ ∃ h ∈ H, h.pos = some (b, w.next b - 1)) := by
+  intro w H
+  have inv := (wallet_refines_handed_out src ops).2
+  have := specNext_spec H b
+  rw [show w.next b = specNext H b from inv.next b]
+  exact this
+
+/-- **next_address.**  After any history, `next_address(b)` answers exactly what `address(b, i)`
+    answers at `i =` the least index above every index handed out on `b`; when it answers an
+    address, that address is the wallet's address at `(b, i)`. -/
+theorem wallet_next_address_least_above (src : Source α) (ops : List (WalletOp α)) (b : Int) :
+    let w := (Wallet.run src ops Wallet.empty).2
+    let H := (specRun src ops []).2
+    let i := specNext H b
+    (Wallet.step src (.next b) w).2 = (Wallet.step src (.address b i) w).2 ∧
+    (∀ h ∈ H, ∀ j, h.pos = some (b, j) → j < i) ∧
+    (∀ j, (∀ h ∈ H, ∀ k, h.pos = some (b, k) → k < j) → i ≤ j) ∧
+    (∀ a, (Wallet.step src (.next b) w).2 = .addr a → src.addr b i = some a) := by
+  intro w H i
+  have inv := (wallet_refines_handed_out src ops).2
+  have hs := specNext_spec H b
+  have h1 := step_sim src (.next b) w H inv
+  have h2 := step_sim src (.address b i) w H inv
+  refine ⟨?_, hs.1, ?_, ?_⟩
+  · rw [h1.1, h2.1]; rfl
+  · intro j hj
+    rcases hs.2 with h0 | ⟨h, hm, hp⟩
+    · show specNext H b ≤ j; omega
+    · have := hj h hm _ hp
+      show specNext H b ≤ j; omega
+  · intro a ha
+    rw [h1.1] at ha
+    simp only [specStep] at ha
+    split at ha
+    · split at ha
+      · rename_i a' hA
+        split at ha
+        · cases ha
+        · simp only [WalletOut.addr.injEq] at ha
+          subst ha
+          simpa using hA
+      · cases ha
+    · cases ha
+
+/-- **Ledger.**  After any history the ledger lists the addresses of the successful calls, in
+    first-hand-out order, each exactly once, and remembers for each the position of its latest
+    hand-out. -/
+theorem wallet_ledger_first_handout_order (src : Source α) (ops : List (WalletOp α)) :
+    let w := (Wallet.run src ops Wallet.empty).2
+    let H := (specRun src ops []).2
+    w.ledger.map Prod.fst = firstOcc (H.map (·.a)) ∧
+    (w.ledger.map Prod.fst).Nodup ∧
+    (∀ a, a ∈ w.ledger.map Prod.fst ↔ a ∈ H.map (·.a)) ∧
+    (∀ a, w.ledger.lookup a = lastInfo H a) := by
+  intro w H
+  have inv := (wallet_refines_handed_out src ops).2
+  refine ⟨inv.keys, ?_, ?_, inv.info⟩
+  · rw [inv.keys]; exact firstOcc_nodup _
+  · intro a; rw [inv.keys]; exact mem_firstOcc _ a
+
+/-- every recorded hand-out is a real one: a known branch, and the wallet's address there. -/
+theorem wallet_handouts_are_real (src : Source α) (ops : List (WalletOp α)) :
+    ∀ h ∈ (specRun src ops []).2, ∀ b i, h.pos = some (b, i) →
+      src.branches.contains b = true ∧ src.addr b i = some h.a :=
+  (wallet_refines_handed_out src ops).2.real
+
+/-- **Failing calls change nothing** (from any state, reachable or not): an unknown branch, a
+    negative index, a position the subclass refuses or a script with no address leave
+    `_next_index` and the ledger exactly as they were. -/
+theorem wallet_failing_call_changes_nothing (src : Source α) (w : Wallet α) (op : WalletOp α) (e : Err)
+    (h : (Wallet.step src op w).2 = .err e) : (Wallet.step src op w).1 = w := by
+  have addr : ∀ b i, (match Wallet.address src w b i with
+      | (w', .ok a) => (w', WalletOut.addr a) | (w', .error e) => (w', .err e)).2 = .err e →
+      (match Wallet.address src w b i with
+      | (w', .ok a) => (w', WalletOut.addr a) | (w', .error e) => (w', .err e)).1 = w := by
+    intro b i
+    have := address_err_same src w b i
+    generalize Wallet.address src w b i = r at this
+    obtain ⟨w', o⟩ := r
+    cases o with
+    | error e' => intro _; exact this e' rfl
+    | ok a => intro h; cases h
+  cases op with
+  | address b i => exact addr b i h
+  | next b => exact addr b _ h
+  | positionOf a last => rfl
+  | info a => simp only [Wallet.step]; split <;> rfl
+  | contains a => rfl
+  | len => rfl
+  | add a => simp [Wallet.step] at h
+
+end Wallet
+
+/-! ## T4 — memoisation is transparent -/
+
+/-- **Memo transparency.**  For any pure `f`, any key function that is sound for it, any history
+    of calls and evictions under any policies (bounded LRU, `cache_clear`, another thread's
+    insertion — anything that never invents an entry), starting from any correct cache: every
+    call answers `f x`, exactly what the same history answers with no cache at all. -/
+theorem memo_transparent {χ κ ν : Type} [DecidableEq κ] (f : χ → ν) (key : χ → κ)
+    (sound : ∀ x y, key x = key y → f x = f y) (ops : List (MemoOp χ κ ν)) (c : List (κ × ν))
+    (h : Correct f key c) :
+    (Memo.run f key ops c).1 = Memo.reference f ops ∧ Correct f key (Memo.run f key ops c).2 := by
+  induction ops generalizing c with
+  | nil => exact ⟨rfl, h⟩
+  | cons op ops ih =>
+    obtain ⟨h1, h2⟩ := memo_step f key sound op c h
+    obtain ⟨h3, h4⟩ := ih _ h1
+    simp only [Memo.run]
+    refine ⟨?_, h4⟩
+    rw [h2, h3]
+    cases op <;> rfl
+
+/-- `functools.lru_cache(maxsize)` is such a cache: one LRU call keeps every entry correct and
+    answers `f x`, for any `maxsize`. -/
+theorem lru_call_transparent {χ κ ν : Type} [DecidableEq κ] (f : χ → ν) (key : χ → κ)
+    (sound : ∀ x y, key x = key y → f x = f y) (maxsize : Nat) (x : χ) (s : Lru κ ν)
+    (h : Correct f key s.cache) :
+    (Lru.call f key maxsize x s).2 = f x ∧ Correct f key (Lru.call f key maxsize x s).1.cache := by
+  simp only [Lru.call]
+  split
+  · rename_i v hv
+    have hx := h _ _ (mem_of_lookup hv) x rfl
+    refine ⟨hx, ?_⟩
+    intro k v' hm y hy
+    simp only [List.mem_cons, List.mem_filter] at hm
+    rcases hm with heq | ⟨hm, _⟩
+    · cases heq; rw [hx]; exact sound x y hy.symm
+    · exact h k v' hm y hy
+  · refine ⟨rfl, ?_⟩
+    intro k v' hm y hy
+    have hm' := List.mem_of_mem_take hm
+    simp only [List.mem_cons] at hm'
+    rcases hm' with heq | hm'
+    · cases heq; exact sound x y hy.symm
+    · exact h k v' hm' y hy
+
+/-! ## T5 — the backend flag's history does not show -/
+
+/-- **Backend independence.**  If both arms compute the same function `M` (that is C04), then for
+    every history of `set_libsecp256k1_serving` calls (including refused ones) interleaved with
+    API calls, from either initial flag, every API call answers `M x`. -/
+theorem backend_history_independent {χ ν : Type} (fC fPy M : χ → ν) (serves : χ → Bool)
+    (hC : ∀ x, fC x = M x) (hPy : ∀ x, fPy x = M x) (ops : List (BackendOp χ)) (flag : Bool) :
+    Backend.run fC fPy serves ops flag = Backend.reference M ops flag := by
+  induction ops generalizing flag with
+  | nil => rfl
+  | cons op ops ih =>
+    cases op with
+    | set serving installed =>
+      simp only [Backend.run, Backend.step, Backend.reference]
+      split <;> simp [ih]
+    | call x =>
+      simp only [Backend.run, Backend.step, Backend.reference, dispatch, ih]
+      split <;> simp [hC, hPy]
+
+/-- a memoised, dispatching API: the table cached under one flag is the table under the other. -/
+theorem memo_over_backend {χ κ ν : Type} [DecidableEq κ] (fC fPy M : χ → ν) (serves : χ → Bool)
+    (hC : ∀ x, fC x = M x) (hPy : ∀ x, fPy x = M x) (key : χ → κ)
+    (sound : ∀ x y, key x = key y → M x = M y) (flag : Bool) (ops : List (MemoOp χ κ ν)) :
+    (Memo.run (dispatch fC fPy serves flag) key ops []).1 = Memo.reference M ops := by
+  have hf : dispatch fC fPy serves flag = M := by
+    funext x; simp only [dispatch]; split <;> simp [hC, hPy]
+  rw [hf]
+  exact (memo_transparent M key sound ops [] (by intro k v hm; cases hm)).1
+
+/-! ## non-vacuity -/
+
+/-- a concrete session: secnonce with k₁ = 1, k₂ = 2 and a 33-byte key tail; all coefficients 1. -/
+def demoArgs : SignArgs :=
+  { ctxOk := true, ctxErr := .value, rOdd := false, b := 1, e := 1, a := 1, g := 1, gacc := 1, prv := 5,
+    pk := List.replicate 33 7, inSet := true }
+def demoNonce : Bytes := beBytes 32 1 ++ beBytes 32 2 ++ List.replicate 33 7
+
+-- the first call signs (s = k₁ + b·k₂ + e·a·d = 1 + 2 + 5 = 8), the second is refused, the bytes are zero
+example : (Nonce.run [.sign demoArgs, .sign demoArgs] demoNonce).1 =
+    [.sig (beBytes 32 8), .err .value] := by decide
+example : (Nonce.run [.sign demoArgs] demoNonce).2 = List.replicate 64 0 ++ List.replicate 33 7 := by
+  decide
+-- a failed first attempt (wrong key tail) also burns it
+example : (Nonce.run [.sign { demoArgs with pk := [] }, .sign demoArgs] demoNonce).1 =
+    [.err .value, .err .value] := by decide
+-- an unassembled session does not
+example : (Nonce.run [.sign { demoArgs with ctxOk := false }, .sign demoArgs] demoNonce).1 =
+    [.err .value, .sig (beBytes 32 8)] := by decide
+-- a live signer signs, a wiped one does not
+example : (Signer.run dsaCode [.sign true, .enter, .sign true, .exit, .sign true] (Signer.init dsaCode true)).1 =
+    [.sig, .self_, .sig, .none_, .err .value] := by decide
+-- a wallet: address(0,5), address(0,2), next(0) → index 6; a bad branch changes nothing
+def demoSrc : Source Nat := ⟨[0, 1], fun b i => if i < 100 then some (b.toNat * 1000 + i + 1) else none, fun a => a == 0⟩
+example : (Wallet.run demoSrc [.address 0 5, .address 0 2, .next 0, .address 7 0, .next 1, .len] Wallet.empty).1 =
+    [.addr 6, .addr 3, .addr 7, .err .value, .addr 1001, .nat 4] := by decide
 
 end Props.C20
